@@ -63,6 +63,8 @@ def register(add, tu, repo, bdir):
     add("vector_step", "Z", lambda: _vector_step(tu("src/vector.c")), "src/vector.c:increase_space")
     import srcfacts_c20
     srcfacts_c20.register(add, tu)
+    import srcfacts_c19
+    srcfacts_c19.register(add, tu)
     import srcfacts_c09
     srcfacts_c09.register(add, tu, repo)
     import srcfacts_c14
